@@ -313,60 +313,9 @@ def loop_reads(tree) -> list[str]:
     return out
 
 
-_TL = {"curr_target", "loss_dict_list"}
-
-
-def _touches(st, names) -> bool:
-    return any(isinstance(n, ast.Name) and n.id in names for n in ast.walk(st))
-
-
-def _simple(st) -> str:
-    if isinstance(st, ast.Assign):
-        t = st.targets[0]
-        if isinstance(t, ast.Subscript):
-            return f"write {ast.unparse(t)}={ast.unparse(st.value)}"
-        return f"{ast.unparse(t)}={ast.unparse(st.value)}"
-    return ast.unparse(st)[:160]
-
-
 def target_facts(tree) -> list[str]:
-    fn = find_function(tree, "MRIModelEngine.reconstruct_volumes")
-    loop = _loop(fn)
-    out = []
-    for st in fn.body:
-        if st is loop:
-            break
-        if isinstance(st, ast.Assign) and isinstance(st.targets[0], ast.Name) and st.targets[0].id in _TL:
-            out.append(f"init {_simple(st)}")
-        elif not isinstance(st, ast.Expr) and _touches(st, _TL):
-            out.append("init other: " + ast.unparse(st)[:100])
-    for st in loop.body:
-        test = ast.unparse(st.test) if isinstance(st, ast.If) else None
-        if test == "last_filename != filename":
-            out += [f"reset {_simple(s)}" for s in st.body if _touches(s, _TL)]
-        elif test == "add_target":
-            out += [f"if add_target: {_simple(s)}" for s in st.body]
-            out += [f"if not add_target: {_simple(s)}" for s in st.orelse]
-        elif isinstance(st, ast.Assign) and ast.unparse(st.targets[0]) == "output_abs":
-            out.append(_simple(st))
-        elif test == "curr_volume is None":
-            for s in st.body:
-                if isinstance(s, ast.If) and ast.unparse(s.test) == "add_target":
-                    out += [f"alloc if add_target: {_simple(x)}" for x in s.body]
-                elif _touches(s, _TL):
-                    out.append(f"alloc {_simple(s)}")
-        elif isinstance(st, ast.Assign) and isinstance(st.targets[0], ast.Subscript) \
-                and ast.unparse(st.targets[0].value) in ("curr_volume", "curr_target"):
-            out.append(_simple(st))
-        elif isinstance(st, ast.If) and any(isinstance(n, ast.Yield) for n in ast.walk(st)):
-            ys = [n for n in ast.walk(st) if isinstance(n, ast.Yield)]
-            out += ["yield " + ast.unparse(y.value) for y in ys]
-            out += ["in-yield " + _simple(s) for s in st.body if not isinstance(s, (ast.Expr, ast.Delete)) and _touches(s, _TL | {"curr_volume"})]
-        elif _touches(st, _TL) and not isinstance(st, ast.Expr):
-            out.append("other: " + ast.unparse(st)[:100])
-        elif isinstance(st, ast.Expr) and isinstance(st.value, ast.Call) and _touches(st, _TL):
-            out.append("other: " + ast.unparse(st)[:100])
-    return out
+    """semantic facts of the target / loss-list / yield part of the loop (c14_loop.Loop.target_facts)"""
+    return c14_loop.Loop(find_function(tree, "MRIModelEngine.reconstruct_volumes"), tree).target_facts()
 
 
 STATE_FUNCS = (
@@ -408,12 +357,43 @@ def state_writes_of(fn) -> list[str]:
     return sorted(out)
 
 
+def _helper_calls(fn, tree, cls) -> list[ast.FunctionDef]:
+    """private helpers of the same module / class that `fn` calls (`_f(...)`, `self._m(...)`, `Cls._m(...)`)"""
+    out = []
+    for n in ast.walk(fn):
+        if not isinstance(n, ast.Call):
+            continue
+        f = ast.unparse(n.func)
+        base = f.split(".")[-1]
+        if not base.startswith("_") or base.startswith("__"):
+            continue
+        try:
+            if "." not in f:
+                out.append(find_function(tree, f))
+            elif cls and f.split(".")[0] in ("self", "cls", cls):
+                out.append(find_function(tree, f"{cls}.{base}"))
+        except Untranslatable:
+            pass
+    return out
+
+
 def state_writes(_tree=None) -> list[tuple[str, list[str]]]:
+    """per function of the reconstruction path: what it (or a private helper it calls, transitively) stores outside locals"""
     from ..gen import REPO
 
     out = []
     for file, qual in STATE_FUNCS:
-        out.append((qual, state_writes_of(find_function(parse_file(REPO / file), qual))))
+        tree = parse_file(REPO / file)
+        cls = qual.split(".")[0] if "." in qual else None
+        seen, todo, writes = set(), [find_function(tree, qual)], set()
+        while todo:
+            fn = todo.pop()
+            if id(fn) in seen or fn.name == "_do_iteration":        # the model call itself is the model's business
+                continue
+            seen.add(id(fn))
+            writes |= set(state_writes_of(fn))
+            todo += _helper_calls(fn, tree, cls)
+        out.append((qual, sorted(writes)))
     return out
 
 
